@@ -609,7 +609,7 @@ def gen_task(loader, check, what, replay_on=True):
 
 def gen_native_bounded(loader, check, replay_on=True):
     """BOUNDED native stand-in (never counted as proved): the real Parser.parse, with the real pool and the real grammar, on synthetic
-    inputs of n instructions for n around the batch / pool sizes; every name must come back with its own number of parts.  It decides
+    inputs of n instructions for n around the batch / pool sizes; every name must come back with its own number of parts (some instructions have textually identical parts).  It decides
     nothing about schedules (T-POOL) - it guards the part of Parser.parse the contracts abstract: how work is handed to the pool."""
     import contextlib
     import io
@@ -621,7 +621,7 @@ def gen_native_bounded(loader, check, replay_on=True):
         cpus = multiprocessing.cpu_count()
         sizes = sorted({1, 2, 5, cpus + 1, 4 * cpus + 1, 4 * cpus + 5})
         for n in sizes:
-            behs = {f"X_{i}": (["{ RdV = RsV; }"] if i % 3 else ["{ RdV = RsV; }", "{ RdV = RtV; }"]) for i in range(n)}
+            behs = {f"X_{i}": (["{ RdV = RsV; }"] if i % 3 else (["{ RdV = RsV; }", "{ RdV = RtV; }"] if i % 2 else ["{ RdV = RsV; }", "{ RdV = RsV; }", "{ RdV = RsV; }"])) for i in range(n)}
             with contextlib.redirect_stdout(io.StringIO()), contextlib.redirect_stderr(io.StringIO()):
                 res = Parser().parse(dict(behs))
             missing = sorted(set(behs) - set(res))
@@ -644,7 +644,7 @@ def replay_native(a):
     import io
     from rzilcompiler.Parser import Parser
     n = a["n"]
-    behs = {f"X_{i}": (["{ RdV = RsV; }"] if i % 3 else ["{ RdV = RsV; }", "{ RdV = RtV; }"]) for i in range(n)}
+    behs = {f"X_{i}": (["{ RdV = RsV; }"] if i % 3 else (["{ RdV = RsV; }", "{ RdV = RtV; }"] if i % 2 else ["{ RdV = RsV; }", "{ RdV = RsV; }", "{ RdV = RsV; }"])) for i in range(n)}
     with contextlib.redirect_stdout(io.StringIO()), contextlib.redirect_stderr(io.StringIO()):
         res = Parser().parse(dict(behs))
     missing = sorted(set(behs) - set(res))
